@@ -22,16 +22,18 @@ package orefafs
 //@   ensures[C05] r0 == nil ==> unchanged(node.children, node.nlink, node.data, OrefaFS.nodes, MD.string.orefafs.node, MV.string.orefafs.node)
 //@ func (*OrefaFS).Chown
 //@   ensures[C05] r0 != nil ==> unchanged(node.children, node.nlink, node.data, node.mode, OrefaFS.nodes, MD.string.orefafs.node, MV.string.orefafs.node)
-//@   ensures[C05] r0 == nil ==> unchanged(node.children, node.nlink, node.data, node.mode, OrefaFS.nodes, MD.string.orefafs.node, MV.string.orefafs.node)
+//@   ensures[C05] r0 == nil ==> unchanged(node.children, node.nlink, node.data, OrefaFS.nodes, MD.string.orefafs.node, MV.string.orefafs.node)
 //@ func (*OrefaFS).Chtimes
 //@   ensures[C05] r0 != nil ==> unchanged(node.children, node.nlink, node.data, node.mode, OrefaFS.nodes, MD.string.orefafs.node, MV.string.orefafs.node)
 //@   ensures[C05] r0 == nil ==> unchanged(node.children, node.nlink, node.data, node.mode, OrefaFS.nodes, MD.string.orefafs.node, MV.string.orefafs.node)
 //@ func (*OrefaFS).Truncate
 //@   ensures[C05] r0 != nil ==> unchanged(node.children, node.nlink, node.data, node.mode, OrefaFS.nodes, MD.string.orefafs.node, MV.string.orefafs.node)
-//@   ensures[C05] r0 == nil ==> unchanged(node.children, node.nlink, node.mode, OrefaFS.nodes, MD.string.orefafs.node, MV.string.orefafs.node)
+//@   ensures[C05] r0 == nil ==> unchanged(node.children, node.nlink, OrefaFS.nodes, MD.string.orefafs.node, MV.string.orefafs.node)
 
 // The successful attribute calls change only their attribute (first block above: Chmod the mode, Chown
 // the owner, Chtimes the time, Truncate the content); the read-only calls Chdir and Readlink change nothing at all
+// The mode is left out of the success frames of Chown and Truncate: chown(2) and truncate(2) may clear
+// the set-id bits, which is a matter of C01, not of the shape of the tree.
 // (Stat and Lstat are not under the clause: fillStatFrom has no frame contract yet).
 //@ func (*OrefaFS).Chdir
 //@   ensures[C05] unchanged(node.children, node.nlink, node.data, node.mode, OrefaFS.nodes, MD.string.orefafs.node, MV.string.orefafs.node)
